@@ -1,7 +1,562 @@
-//! C12 — not built yet
-use crate::vcore::Tier;
+//! C12 — play / stop / rewind behave like a cassette deck for every command history.
+//!
+//! Explicit-state BFS over (real Tap, RefDeck) with a refinement mapping checked after every
+//! action: while playing, the real tape state (every field except `prev_state`, which
+//! `process_clocks` never reads) must equal the state of the uninterrupted tape (the C11 chain)
+//! at RefDeck's position; while stopped, time must change nothing at all. Commands are tried at
+//! EVERY T-state position inside the listed windows of the waveform; between windows the deck is
+//! fast-forwarded deterministically.
 
-pub fn run(_tier: Tier, _seed: u64, _replay: Option<String>) -> i32 {
-    eprintln!("MACHINERY: check C12 is not built yet");
-    2
+use crate::rig::{self, AssetData};
+use crate::tapemodel::*;
+use crate::vcore::{Ctx, Tier};
+use rustzx_core::verif::TapeImpl;
+use serde_json::json;
+use std::collections::{BTreeMap, HashSet, VecDeque};
+
+#[derive(Clone, Copy, Debug, PartialEq, Eq, Hash)]
+enum Pos {
+    /// nothing consumed yet: the next clock starts the first block
+    Start,
+    /// after reload `seg`, `delay` T of the current pulse still pending
+    At { seg: usize, delay: usize },
+}
+
+#[derive(Clone, Copy, Debug, PartialEq, Eq, Hash)]
+struct Deck {
+    playing: bool,
+    /// current position when playing, resume position when stopped
+    pos: Pos,
+}
+
+#[derive(Clone, Copy, Debug, PartialEq, Eq, Hash)]
+enum Act {
+    Adv1,
+    FastForward,
+    AdvStopped,
+    Stop,
+    Play,
+    Rewind,
+}
+
+#[derive(Clone)]
+struct Node {
+    tap: RTap,
+    deck: Deck,
+    budget: u8,
+    /// commands issued so far with the position class they were issued at
+    trace: Vec<(Act, String)>,
+}
+
+struct Model<'a> {
+    chain: &'a Chain,
+    /// per segment: (delay_lo, delay_hi) of positions inside a command window
+    windows: BTreeMap<usize, (usize, usize)>,
+    name: String,
+    blocks_json: serde_json::Value,
+}
+
+impl<'a> Model<'a> {
+    fn last_seg(&self) -> usize {
+        self.chain.reloads.len() - 1
+    }
+
+    fn in_window(&self, p: Pos) -> bool {
+        match p {
+            Pos::Start => true,
+            Pos::At { seg, delay } => match self.windows.get(&seg) {
+                Some((lo, hi)) => delay >= *lo && delay <= *hi,
+                None => false,
+            },
+        }
+    }
+
+    /// RefDeck: advance a playing deck by `s` T. Returns false when the tape ran out (deck stops).
+    fn advance(&self, d: &mut Deck, s: usize) {
+        match d.pos {
+            Pos::Start => {
+                // first clock call: reload 0
+                if self.last_seg() == 0 {
+                    d.playing = false;
+                    d.pos = Pos::Start;
+                } else {
+                    d.pos = Pos::At { seg: 0, delay: self.chain.reloads[0].delay };
+                }
+            }
+            Pos::At { seg, delay } => {
+                if delay > 0 {
+                    d.pos = Pos::At { seg, delay: delay.saturating_sub(s) };
+                } else if seg + 1 >= self.last_seg() {
+                    // the reload after the last pause finds no block: the deck stops, position = start
+                    d.playing = false;
+                    d.pos = Pos::Start;
+                } else {
+                    d.pos = Pos::At { seg: seg + 1, delay: self.chain.reloads[seg + 1].delay };
+                }
+            }
+        }
+    }
+
+    fn expected_key(&self, seg: usize, delay: usize) -> TapKey {
+        let mut k = tap_key_noprev(&self.chain.reloads[seg].entry);
+        k.st.delay = delay;
+        k
+    }
+
+    fn pos_class(&self, p: Pos) -> String {
+        match p {
+            Pos::Start => "start".into(),
+            Pos::At { seg, .. } => {
+                let tag = self.chain.reloads[seg].entry.verif_state().state.0;
+                match tag {
+                    1 => "pause".into(), // state Play with the pause delay pending
+                    2 => "pilot".into(),
+                    3 => "sync1".into(),
+                    5 => {
+                        // NextBit pending: we are in sync2 (first) or second half of a bit
+                        "sync2-or-bit-second-half".into()
+                    }
+                    6 => "bit-first-half".into(),
+                    4 => "last-bit-of-byte-second-half".into(),
+                    7 => "pause".into(),
+                    _ => format!("tag{}", tag),
+                }
+            }
+        }
+    }
+}
+
+fn trace_str(t: &[(Act, String)]) -> String {
+    t.iter()
+        .map(|(a, c)| format!("{}@{}", match a {
+            Act::Stop => "stop",
+            Act::Play => "play",
+            Act::Rewind => "rewind",
+            _ => "?",
+        }, c))
+        .collect::<Vec<_>>()
+        .join(".")
+}
+
+fn trace_cmds(t: &[(Act, String)]) -> String {
+    t.iter()
+        .map(|(a, _)| match a {
+            Act::Stop => "stop",
+            Act::Play => "play",
+            Act::Rewind => "rewind",
+            _ => "?",
+        })
+        .collect::<Vec<_>>()
+        .join(".")
+}
+
+/// Check the refinement mapping of a node; returns false (and reports) when broken.
+fn check_mapping(ctx: &Ctx, m: &Model, n: &Node, what: &str, hist: &serde_json::Value) -> bool {
+    let st = n.tap.verif_state();
+    if n.deck.playing {
+        match n.deck.pos {
+            Pos::Start => {
+                // behavioural: the very next clock must start block 1 exactly like a fresh tape
+                let mut c = n.tap.clone();
+                let bit0 = c.current_bit();
+                let r = c.process_clocks(0);
+                let fresh = &m.chain.reloads[0];
+                let ok = r.is_ok()
+                    && tap_key_noprev(&c) == tap_key_noprev(&fresh.entry)
+                    && (c.current_bit() != bit0) == fresh.flipped;
+                if !ok {
+                    ctx.violation(
+                        &format!("C12:{}:not-at-start:{}", what, trace_cmds(&n.trace)),
+                        &format!(
+                            "tape {}: after [{}] the deck should play the whole tape from its first block with a clean pilot, but the next clock gives state {:?} (fresh tape: {:?})",
+                            m.name, trace_str(&n.trace), c.verif_state().state, fresh.entry.verif_state().state
+                        ),
+                        hist.clone(),
+                    );
+                    return false;
+                }
+            }
+            Pos::At { seg, delay } => {
+                if tap_key_noprev(&n.tap) != m.expected_key(seg, delay) {
+                    let e = m.expected_key(seg, delay);
+                    ctx.violation(
+                        &format!("C12:{}:position-lost:{}", what, trace_cmds(&n.trace)),
+                        &format!(
+                            "tape {}: after [{}] the tape is not where the uninterrupted tape would be: state {:?} delay {} bit {} block_read {} asset_pos {} — expected state {:?} delay {} bit {} block_read {} asset_pos {}",
+                            m.name, trace_str(&n.trace), st.state, st.delay, st.curr_bit, st.block_bytes_read, n.tap.verif_asset().pos,
+                            e.st.state, e.st.delay, e.st.curr_bit, e.st.block_bytes_read, e.asset_pos
+                        ),
+                        hist.clone(),
+                    );
+                    return false;
+                }
+            }
+        }
+    } else if st.state.0 != TAG_STOP {
+        ctx.violation(
+            &format!("C12:{}:deck-not-stopped:{}", what, trace_cmds(&n.trace)),
+            &format!("tape {}: after [{}] the deck should be stopped but is in state {:?}", m.name, trace_str(&n.trace), st.state),
+            hist.clone(),
+        );
+        return false;
+    }
+    true
+}
+
+fn hist_json(m: &Model, n: &Node, act: Act) -> serde_json::Value {
+    json!({"kind":"deck","tape":m.name,"blocks":m.blocks_json,
+        "commands": trace_str(&n.trace), "next_action": format!("{:?}", act),
+        "deck": format!("{:?}", n.deck), "budget": n.budget})
+}
+
+fn actions(m: &Model, n: &Node) -> Vec<Act> {
+    let mut v = Vec::new();
+    if n.deck.playing {
+        if m.in_window(n.deck.pos) {
+            v.push(Act::Adv1);
+            if n.budget > 0 {
+                v.push(Act::Stop);
+                v.push(Act::Play);
+            }
+        } else if n.budget > 0 {
+            // with no command left nothing can read prev_state any more: the future is the
+            // uninterrupted tape's, which C11 covers
+            v.push(Act::FastForward);
+        }
+    } else {
+        v.push(Act::AdvStopped);
+        if n.budget > 0 {
+            v.push(Act::Play);
+            v.push(Act::Stop);
+            v.push(Act::Rewind);
+        }
+    }
+    v
+}
+
+fn apply(ctx: &Ctx, m: &Model, n: &Node, act: Act) -> Option<Node> {
+    let mut x = n.clone();
+    let hist = hist_json(m, n, act);
+    let before_full = tap_key(&n.tap);
+    match act {
+        Act::Adv1 => {
+            if x.tap.process_clocks(1).is_err() {
+                ctx.violation("C12:process_clocks-error", "process_clocks failed", hist);
+                return None;
+            }
+            m.advance(&mut x.deck, 1);
+            if !check_mapping(ctx, m, &x, "advance", &hist) {
+                return None;
+            }
+        }
+        Act::FastForward => {
+            let mut guard = 0u64;
+            loop {
+                let step = match x.deck.pos {
+                    Pos::At { seg, delay } => match m.windows.get(&seg) {
+                        Some((_, hi)) if delay > *hi => (delay - *hi).min(16),
+                        _ => 16,
+                    },
+                    Pos::Start => 16,
+                };
+                let was_reload = matches!(x.deck.pos, Pos::At { delay: 0, .. } | Pos::Start);
+                if x.tap.process_clocks(step).is_err() {
+                    ctx.violation("C12:process_clocks-error", "process_clocks failed", hist);
+                    return None;
+                }
+                m.advance(&mut x.deck, step);
+                if was_reload && !check_mapping(ctx, m, &x, "advance", &hist) {
+                    return None;
+                }
+                guard += 1;
+                if !x.deck.playing || m.in_window(x.deck.pos) {
+                    break;
+                }
+                if guard > 50_000_000 {
+                    eprintln!("MACHINERY: fast-forward did not terminate");
+                    std::process::exit(2);
+                }
+            }
+            ctx.add_transitions(guard);
+            if !check_mapping(ctx, m, &x, "advance", &hist) {
+                return None;
+            }
+        }
+        Act::AdvStopped => {
+            if x.tap.process_clocks(16).is_err() {
+                ctx.violation("C12:process_clocks-error", "process_clocks failed", hist);
+                return None;
+            }
+            if tap_key(&x.tap) != before_full {
+                ctx.violation(
+                    &format!("C12:stopped-not-frozen:{}", trace_cmds(&n.trace)),
+                    &format!("tape {}: while stopped after [{}], 16 T of emulated time changed the tape state / EAR level", m.name, trace_str(&n.trace)),
+                    hist,
+                );
+                return None;
+            }
+        }
+        Act::Stop => {
+            x.budget -= 1;
+            x.trace.push((Act::Stop, m.pos_class(n.deck.pos) + if n.deck.playing { "" } else { "(stopped)" }));
+            let bit0 = x.tap.current_bit();
+            x.tap.stop();
+            x.deck.playing = false;
+            let hist = hist_json(m, &x, act);
+            if x.tap.current_bit() != bit0 || x.tap.verif_asset().pos != before_full.asset_pos {
+                ctx.violation(
+                    &format!("C12:stop-disturbs-tape:{}", trace_cmds(&x.trace)),
+                    &format!("tape {}: stop changed the EAR level or consumed tape after [{}]", m.name, trace_str(&x.trace)),
+                    hist,
+                );
+                return None;
+            }
+            if !check_mapping(ctx, m, &x, "stop", &hist) {
+                return None;
+            }
+        }
+        Act::Play => {
+            x.budget -= 1;
+            x.trace.push((Act::Play, m.pos_class(n.deck.pos) + if n.deck.playing { "(playing)" } else { "" }));
+            x.tap.play();
+            let hist = hist_json(m, &x, act);
+            if n.deck.playing {
+                if tap_key(&x.tap) != before_full {
+                    ctx.violation(
+                        &format!("C12:redundant-play-disturbs:{}", trace_cmds(&x.trace)),
+                        &format!("tape {}: play while already playing changed the tape state after [{}]", m.name, trace_str(&x.trace)),
+                        hist,
+                    );
+                    return None;
+                }
+            } else {
+                x.deck.playing = true;
+                if !check_mapping(ctx, m, &x, "resume", &hist) {
+                    return None;
+                }
+            }
+        }
+        Act::Rewind => {
+            x.budget -= 1;
+            x.trace.push((Act::Rewind, m.pos_class(n.deck.pos)));
+            if x.tap.rewind().is_err() {
+                ctx.violation("C12:rewind-error", "rewind failed on an in-memory asset", hist);
+                return None;
+            }
+            x.deck.pos = Pos::Start;
+            let hist = hist_json(m, &x, act);
+            if !check_mapping(ctx, m, &x, "rewind", &hist) {
+                return None;
+            }
+        }
+    }
+    Some(x)
+}
+
+fn build_windows(chain: &Chain, quick: bool) -> BTreeMap<usize, (usize, usize)> {
+    let mut w: BTreeMap<usize, (usize, usize)> = BTreeMap::new();
+    let n = chain.reloads.len();
+    let tag = |k: usize| chain.reloads[k].entry.verif_state().state.0;
+    let span = if quick { 40 } else { 3000 };
+    let mut add_full = |k: usize, w: &mut BTreeMap<usize, (usize, usize)>| {
+        if k < n - 1 {
+            let d = chain.reloads[k].delay;
+            if quick && d > 2 * span {
+                // head and tail of the pulse are different windows; keep the head, add the tail below
+                w.insert(k, (d - span, d));
+            } else {
+                w.insert(k, (0, d));
+            }
+        }
+    };
+    // first two pilot pulses of the tape
+    add_full(0, &mut w);
+    add_full(1, &mut w);
+    // every block: last pilot -> sync -> first bits; first data byte; last bit -> pause head; pause tail -> next pilot
+    for k in 0..n - 1 {
+        let t = tag(k);
+        // entry state Sync (tag 3) means: this segment is the sync1 pulse; k-1 is the last pilot pulse
+        if t == 3 {
+            if k >= 1 {
+                // tail of the last pilot pulse
+                let d = chain.reloads[k - 1].delay;
+                w.insert(k - 1, (0, if quick { span.min(d) } else { d }));
+            }
+            let bytes = if quick { 1 } else { 2 };
+            for j in k..(k + 2 + 16 * bytes).min(n - 1) {
+                let d = chain.reloads[j].delay;
+                if quick && j > k + 3 {
+                    // quick: first and last 40 T of each later pulse would need two ranges; take the tail
+                    w.insert(j, (0, span.min(d)));
+                } else {
+                    w.insert(j, (0, d));
+                }
+            }
+        }
+        // pause segment: entry state Play (tag 1) with a long delay
+        if t == 1 && chain.reloads[k].delay > 1_000_000 {
+            let d = chain.reloads[k].delay;
+            // last two half-bit pulses before the pause
+            for j in k.saturating_sub(2)..k {
+                let dj = chain.reloads[j].delay;
+                w.insert(j, (0, if quick { span.min(dj) } else { dj }));
+            }
+            // pause: only one range per segment is supported -> tail of the pause (incl. delay 0);
+            // the head of the pause is covered by a second model instance (see run)
+            w.insert(k, (0, span.min(d)));
+            // first pilot pulse of the next block
+            if k + 1 < n - 1 {
+                let d1 = chain.reloads[k + 1].delay;
+                w.insert(k + 1, (if quick { d1 - span.min(d1) } else { 0 }, d1));
+            }
+        }
+    }
+    w
+}
+
+fn pause_head_windows(chain: &Chain, quick: bool) -> BTreeMap<usize, (usize, usize)> {
+    let mut w = BTreeMap::new();
+    let n = chain.reloads.len();
+    let span = if quick { 40 } else { 3000 };
+    for k in 0..n - 1 {
+        let st = chain.reloads[k].entry.verif_state();
+        if st.state.0 == 1 && chain.reloads[k].delay > 1_000_000 {
+            let d = chain.reloads[k].delay;
+            w.insert(k, (d - span, d));
+        }
+    }
+    // a middle-of-pilot window too
+    if n > 2000 {
+        let d = chain.reloads[1500].delay;
+        w.insert(1500, (d.saturating_sub(span), d));
+    }
+    w
+}
+
+fn explore(ctx: &Ctx, m: &Model, budget: u8) {
+    let image = m.chain.image.clone();
+    let mut t0 = new_tap(&image);
+    t0.play();
+    let root = Node {
+        tap: t0,
+        deck: Deck { playing: true, pos: Pos::Start },
+        budget,
+        trace: vec![],
+    };
+    // also a root that is stopped from the beginning (never played): stop/rewind/play from cold
+    let cold = Node {
+        tap: new_tap(&image),
+        deck: Deck { playing: false, pos: Pos::Start },
+        budget,
+        trace: vec![],
+    };
+    type Key = (TapKey, Deck, u8);
+    let keyf = |n: &Node| -> Key { (tap_key(&n.tap), n.deck, n.budget) };
+    let mut seen: HashSet<Key> = HashSet::new();
+    let mut q: VecDeque<Node> = VecDeque::new();
+    for r in [root, cold] {
+        seen.insert(keyf(&r));
+        q.push_back(r);
+    }
+    let mut states = 2u64;
+    let mut transitions = 0u64;
+    let mut outcomes: HashSet<u64> = HashSet::new();
+    let mut sampled = 0;
+    while let Some(n) = q.pop_front() {
+        for a in actions(m, &n) {
+            transitions += 1;
+            if let Some(x) = apply(ctx, m, &n, a) {
+                let k = keyf(&x);
+                if seen.insert(k) {
+                    states += 1;
+                    if matches!(a, Act::Play | Act::Stop | Act::Rewind) {
+                        outcomes.insert(crate::vcore::fnv(format!("{:?}{:?}{}", x.tap.verif_state().prev_state, x.deck.playing, trace_cmds(&x.trace)).as_bytes()));
+                        if sampled < 4 && x.trace.len() >= 2 {
+                            ctx.sample(json!({"tape":m.name,"commands":trace_str(&x.trace),"deck":format!("{:?}", x.deck)}));
+                            sampled += 1;
+                        }
+                    }
+                    q.push_back(x);
+                }
+            }
+        }
+    }
+    ctx.add_states(states);
+    ctx.add_transitions(transitions);
+    ctx.add_traces(transitions);
+    ctx.outcomes_bulk(&outcomes);
+}
+
+pub fn check_tape(ctx: &Ctx, name: &str, blocks: &[Vec<u8>], budget: u8, quick: bool) {
+    let image = AssetData::Static(Box::leak(tap_image(blocks).into_boxed_slice()));
+    let blocks_json = json!(blocks.iter().map(|b| crate::vcore::hex(b)).collect::<Vec<_>>());
+    let total_nominal: u64 = blocks.iter().map(|b| 8063 * PILOT + b.len() as u64 * 16 * ONE + 2 * SECOND).sum::<u64>() + SECOND;
+    let chain = match build_chain(&image, 16, total_nominal * 2) {
+        Ok(c) if c.ended && c.reloads.len() > 4 => c,
+        _ => {
+            ctx.violation("C12:baseline-tape-does-not-play", &format!("tape {} does not play to its end uninterrupted (see C11)", name), json!({"kind":"deck","tape":name,"blocks":blocks_json}));
+            return;
+        }
+    };
+    // the uninterrupted tape must itself decode to the blocks (C11's oracle, re-checked here so
+    // the refinement target is known good)
+    match decode(&chain.pulses, true) {
+        Ok(d) if d.blocks == blocks => {}
+        _ => {
+            ctx.violation("C12:baseline-tape-does-not-decode", &format!("tape {}: uninterrupted waveform does not decode to the TAP blocks (see C11)", name), json!({"kind":"deck","tape":name,"blocks":blocks_json}));
+            return;
+        }
+    }
+    let positions = |w: &BTreeMap<usize, (usize, usize)>| -> u64 { w.values().map(|(lo, hi)| (hi - lo + 1) as u64).sum() };
+    for (label, windows) in [("main", build_windows(&chain, quick)), ("pause-head", pause_head_windows(&chain, quick))] {
+        let m = Model {
+            chain: &chain,
+            windows,
+            name: format!("{}/{}", name, label),
+            blocks_json: blocks_json.clone(),
+        };
+        ctx.note_add("command_positions", positions(&m.windows));
+        explore(ctx, &m, budget);
+    }
+}
+
+pub fn run(tier: Tier, seed: u64, replay: Option<String>) -> i32 {
+    let ctx = Ctx::new("C12", tier, seed, "model_checking");
+    if let Some(path) = replay {
+        return replay_case(&ctx, &path);
+    }
+    let quick = !tier.is_thorough();
+    let budget = if quick { 4 } else { 5 };
+    let tapes: Vec<(&str, Vec<Vec<u8>>)> = if quick {
+        vec![("two-data-blocks", vec![std_block(0xFF, &[0xA5]), std_block(0xFF, &[0x3C, 0x81])])]
+    } else {
+        vec![
+            ("two-data-blocks", vec![std_block(0xFF, &[0xA5]), std_block(0xFF, &[0x3C, 0x81])]),
+            ("hdr+data130", vec![std_block(0x00, &[1, 2, 3]), std_block(0xFF, &(0..128u32).map(|i| (i * 3 + 1) as u8).collect::<Vec<u8>>())]),
+        ]
+    };
+    for (name, blocks) in tapes.iter() {
+        check_tape(&ctx, name, blocks, budget, quick);
+    }
+    ctx.note("command_budget", json!(budget));
+    ctx.note("not_judged", json!("rewind issued while playing (what the cut block sounds like); EAR level change caused by the rewind command itself"));
+    ctx.finish(
+        "BFS over (real Tap, RefDeck) from a playing and a cold deck: at every T position inside the command windows (first pilot pulses, pilot->sync->first byte, last bits->pause head, pause tail->next pilot / end of tape, after the end) every command of {stop, play, rewind(while stopped)} up to the command budget, advance(1) inside windows and deterministic fast-forward between them; refinement mapping checked after every action; dedup on (complete Tap state incl. prev_state, RefDeck, remaining budget). distinct = distinct (prev_state, mode, command trace) outcomes",
+        true,
+        &["uninterrupted tape behaviour (the refinement target) is C11's verified chain", "prev_state is read only by play(): equality of all other fields implies equal futures until the next command"],
+    )
+}
+
+fn replay_case(ctx: &Ctx, path: &str) -> i32 {
+    let v: serde_json::Value = serde_json::from_slice(&rig::read_file(path)).expect("replay json");
+    let case = &v["case"];
+    let blocks: Vec<Vec<u8>> = case["blocks"]
+        .as_array()
+        .map(|a| a.iter().map(|x| crate::vcore::unhex(x.as_str().unwrap_or(""))).collect())
+        .unwrap_or_default();
+    println!("replay: tape {:?}, failing history [{}] then {}", case["tape"], case["commands"].as_str().unwrap_or(""), case["next_action"]);
+    check_tape(ctx, "replay", &blocks, 4, true);
+    let n = ctx.violation_classes();
+    println!("replay: {} violation class(es) reproduced", n);
+    (n > 0) as i32
 }
